@@ -59,10 +59,65 @@ def run_specs(ctx, texts, cmd="spec"):
     return impl, model
 
 
+def canon_grammar(line, user_nts):
+    """The derived grammar modulo the identity of synthesised non-terminals: user-written non-terminals keep their
+    names, synthesised ones are replaced by the colour that iterated refinement over their production sets gives them,
+    so that two synthesised non-terminals with the same productions are one.  Needed because whether two bracket
+    expressions whose alternative lists are equal as sets but not as lists share one synthesised non-terminal depends on
+    the probe paths of the dependency's hash table (the model shares exactly on equal hashes); the language is the same."""
+    o = parse_ok(line)
+    nts = set(o["N"])
+    col = {n: (n if n in user_nts else "S") for n in nts}
+    prods = {}
+    for h, body in o["P"]:
+        prods.setdefault(h, []).append(body)
+    for _ in range(12):          # a fixed number of refinement rounds, the same for both grammars compared
+        new = {}
+        for n in nts:
+            if n in user_nts:
+                new[n] = n
+                continue
+            sig = sorted(set(tuple((k, col.get(x, x) if k == "n" else x) for k, x in b) for b in prods.get(n, [])))
+            new[n] = "S" + hashlib.sha256(repr(sig).encode()).hexdigest()[:16]
+        col = new
+    cp = sorted(set((col.get(h, h), tuple((k, col.get(x, x) if k == "n" else x) for k, x in b)) for h, b in o["P"]))
+    levels = []
+    for a, hl in o["L"]:
+        hs = set()
+        for h in hl:
+            if h[0] == "t":
+                hs.add(h)
+            else:
+                hd, body = h[1]
+                hs.add(("p", col.get(hd, hd), tuple((k, col.get(x, x) if k == "n" else x) for k, x in body)))
+        levels.append((a, tuple(sorted(hs, key=repr))))
+    return (o["name"], tuple(sorted(o["T"])), tuple(cp), tuple(o["D"]), tuple(levels))
+
+
+MEMO_SHARING = [0]
+
+
+def same_modulo_sharing(text, i, m):
+    """exact comparison failed: do the two results differ only in which set-equal bracket expressions share a synthesised non-terminal?"""
+    if not (i.startswith("OK") and m.startswith("OK")):
+        return False
+    try:
+        user = set(re.findall(r"(?<![A-Za-z0-9_\"$@])([a-z][0-9a-z_]*)\s*=", text.decode("utf-8", "replace")))
+        user |= {"start"}
+        if canon_grammar(i, user) == canon_grammar(m, user):
+            MEMO_SHARING[0] += 1
+            return True
+    except Exception:
+        pass
+    return False
+
+
 def correspondence(ctx, texts, impl, model, what="spec.Parse"):
     n = 0
     for t, i, m in zip(texts, impl, model):
         same = (i == m) if i.startswith("OK") or m.startswith("OK") else (canon_err(i) == canon_err(m))
+        if not same and same_modulo_sharing(t, i, m):
+            same = True
         if not same:
             n += 1
             if n <= 3:
